@@ -234,7 +234,8 @@ func init() {
 		},
 		"env|_newSubordinateEnvWithBinds": func(w *World) *ssa.Function {
 			return unique(staticCalleesIn(w.Fn("env", "NewSubordinateEnvWithBinds")), func(f *ssa.Function) bool {
-				return len(sigParams(f)) == 3
+				r := sigResults(f)
+				return len(r) == 2 && isErrorType(r[1]) // (a function of three parameters, or a method of the outer scope)
 			})
 		},
 	}
